@@ -88,7 +88,10 @@ def families(args):
 
     items = [Item(n) for n in sorted(results)] + [Item('@alphabet')]
     fam = ppprop.Family('scope-pairing', items, None, ('scope',), custom_work=work)
-    return [fam]
+    import lexcases
+    lw = lexcases.work_factory(gprod.productions(E.prog()))
+    fam2 = ppprop.Family('bounded-lexical', [c for c in lexcases.cases(args.tier) if c.prop == 'C12'], None, ('lex',), custom_work=lw)
+    return [fam, fam2]
 
 
 def main():
